@@ -1,6 +1,7 @@
 package harness
 
 import (
+	"os"
 	"encoding/json"
 	"fmt"
 	"reflect"
@@ -392,6 +393,95 @@ func execC13b(s *c13bScenario, c *ev.Ctx) {
 				c.Violate("e2e:requests-too-small", "NodeClaim %s requests %s=%s but its pods %s need %s", api.Name, rn, got.String(), shortPods(m.pods), q.String())
 			}
 		}
+		// ... plus daemon overhead: on whatever node the claim becomes (listed type x launchable offering x value of the
+		// user-defined labels) Kubernetes runs the DaemonSets that select it; the requests cover the pods plus at least the
+		// SMALLEST such overhead (daemons that only match through a label a pod induced are left out: known finding C01)
+		nc := res.NewNodeClaims[i]
+		poolKeys := b.poolPrims(m.pool)
+		minOverheadOver := func(types []string) corev1.ResourceList {
+			var minOverhead corev1.ResourceList
+			for _, name := range types {
+				it, ok := b.itSpec(name)
+				if !ok {
+					continue
+				}
+				for _, ch := range launchable(it, nc.Requirements) {
+					for _, custom := range customCombos(nc.Requirements) {
+						node := newNodeView(nc, it, ch, custom)
+						var daemons []*corev1.Pod
+						for _, ds := range b.DaemonSets {
+							if !daemonRunsOn(ds, node) {
+								continue
+							}
+							induced := false
+							for k := range custom {
+								if _, defined := poolKeys[k]; !defined && mentionsKey(daemonTemplatePod(ds), k) {
+									induced = true
+								}
+							}
+							if !induced {
+								daemons = append(daemons, daemonTemplatePod(ds))
+							}
+						}
+						overhead := ref.SumRequests(daemons...)
+						if minOverhead == nil {
+							minOverhead = overhead
+							continue
+						}
+						for rn, q := range minOverhead {
+							if o, ok := overhead[rn]; !ok {
+								delete(minOverhead, rn)
+							} else if o.Cmp(q) < 0 {
+								minOverhead[rn] = o
+							}
+						}
+					}
+				}
+			}
+			return minOverhead
+		}
+		if os.Getenv("VERIF_DBG") != "" {
+			fmt.Printf("C13DBG %s options=%v listed=%v requests=%v pods=%s\n", api.Name, m.options, apiReqs.Get(corev1.LabelInstanceTypeStable).Values(), api.Spec.Resources.Requests, shortPods(m.pods))
+		}
+		listed := minOverheadOver(apiReqs.Get(corev1.LabelInstanceTypeStable).Values())
+		// Provisioner.Schedule truncates the options to the MaxInstanceTypes cheapest AFTER the requests were finalized over
+		// all options: what every type the requirements (without the instance-type list) admit would need at least
+		var admitted []string
+		if len(m.options) >= s.MaxTypes {
+			for _, it := range s.World.Catalog {
+				admitted = append(admitted, it.Name)
+			}
+		} else {
+			admitted = m.options
+		}
+		saved := nc.Requirements
+		widened := scheduling.NewRequirements()
+		for k, r := range saved {
+			if k != corev1.LabelInstanceTypeStable {
+				widened[k] = r
+			}
+		}
+		nc.Requirements = widened
+		decided := minOverheadOver(admitted)
+		nc.Requirements = saved
+		for _, rn := range []corev1.ResourceName{corev1.ResourceCPU, corev1.ResourceMemory, corev1.ResourcePods} {
+			o, ok := listed[rn]
+			if !ok || o.IsZero() {
+				continue
+			}
+			c.Class("daemon_overhead_judged")
+			q := want[rn].DeepCopy()
+			q.Add(o)
+			if got := api.Spec.Resources.Requests[rn]; got.Cmp(q) < 0 {
+				sig := "e2e:requests-without-daemon-overhead"
+				if d, ok := decided[rn]; !ok || d.Cmp(o) < 0 {
+					// the overhead was the minimum over the scheduler's options; truncating the launch list to the cheapest
+					// types afterwards removed the types with the smaller overhead
+					sig += ":computed-before-truncation"
+				}
+				c.Violate(sig, "NodeClaim %s requests %s=%s, but its pods %s need %s and every node it can become runs daemons needing at least %s more", api.Name, rn, got.String(), shortPods(m.pods), ptrTo(want[rn]).String(), o.String())
+			}
+		}
 		// template fidelity
 		np := m.template
 		if np != nil {
@@ -449,9 +539,9 @@ func execC13b(s *c13bScenario, c *ev.Ctx) {
 var propC13b = ev.Prop[c13bScenario]{
 	ID: "C13", Test: "TestC13b",
 	Rule: "rapid draws a scheduler world (custom-key heavy pools: In/NotIn/Exists/Gt/Lt on user labels, minValues) and MaxInstanceTypes in {2,3,5,600}; Provisioner.Schedule then CreateNodeClaims run; every NodeClaim is read back from the API and compared with a snapshot of the scheduler's in-memory NodeClaim: " +
-		"per key the serialised requirement admits exactly the in-memory set (instance-type = explicit cheapest subset of the options, capacity-type only narrowed, simulation-only keys dropped), minValues kept and floors met (strict), requests >= sum of its pods, labels/taints/startupTaints/nodeClassRef/TGP/expireAfter/hash/owner from the NodePool template, every label admitted by its own requirement, no panic; " +
+		"per key the serialised requirement admits exactly the in-memory set (instance-type = explicit cheapest subset of the options, capacity-type only narrowed, simulation-only keys dropped), minValues kept and floors met (strict), requests >= sum of its pods plus the smallest daemon overhead over the nodes it can become, labels/taints/startupTaints/nodeClassRef/TGP/expireAfter/hash/owner from the NodePool template, every label admitted by its own requirement, no panic; " +
 		"non-trivial = a key with minValues or a multi-value complement requirement",
-	Assumptions: []string{"daemon overhead inside spec.resources.requests is not judged (C01 judges fit against allocatable)"},
+	Assumptions: []string{"daemon overhead inside spec.resources.requests is judged as a lower bound: the smallest overhead over every node the claim can become"},
 	Draw:        drawC13b, Exec: execC13b, ReplayTries: 5,
 }
 
